@@ -5,10 +5,10 @@ PROP = dict(
     lean_modules=["PopsModel.Props.C08"],
     theorems=["Pops.C08_yearly", "Pops.C08_yearly_once", "Pops.C08_end_of_year", "Pops.C08_monthly", "Pops.C08_nsteps",
               "Pops.C08_spread", "Pops.C08_frequency", "Pops.C08_index_bijection", "Pops.C08_weather"],
-    commands=["yearly", "eoy", "monthly", "nsteps", "final", "spread", "fromstring", "weather", "actionstep", "count"],
+    commands=["yearly", "eoy", "monthly", "nsteps", "final", "spread", "fromstring", "weather", "actionstep", "count", "cfgsched"],
     runs={
-        "quick": [("h_date", "sched", 0, 3000), ("h_date", "tables", 0, 94)],
-        "thorough": [("h_date", "sched", 0, 300000), ("h_date", "tables", 0, 94)],
+        "quick": [("h_date", "sched", 0, 3000), ("h_date", "config", 0, 1500), ("h_date", "tables", 0, 94)],
+        "thorough": [("h_date", "sched", 0, 300000), ("h_date", "config", 0, 150000), ("h_date", "tables", 0, 94)],
     },
     exhaustive={"quick": False, "thorough": False},
     exhaustive_note={"quick": "frequency-name x step-unit x n (n <= 31) compatibility table complete (2520 entries); schedulers sampled",
@@ -21,4 +21,4 @@ PROP = dict(
 META = dict(engine="h_date", design_ref="DESIGN.md section 3, C08",
         technique="Lean 4 theorems (containment characterisation per builder, counting bijection) + differential correspondence with date-enumeration predicates",
         text="Proof: for every well-formed step shorter than a year (straddling steps included) the yearly / end-of-year / monthly builders fire iff the step contains the date / a 31 December / a month end; exactly one step of a tiled calendar fires per covered occurrence; every-n, every-step, final-step, spread and weather tables are characterised by index; the frequency-name table with all rejections; simulation_step_to_action_step is a bijection from firing steps onto [0, count). The model is tied to the code on random schedulers (all builders compared bit for bit) and the complete name x unit x n table, and the containment predicates are evaluated on the implementation's output by enumerating dates.",
-        note="Trusted: as C07. Config::create_schedules wiring is covered under C09.")
+        note="Trusted: as C07. Config::create_schedules (which builder each feature gets: lethal = yearly on day 1 of its month, survival = yearly on month/day, mortality / spread rate / quarantine / output by frequency name, weather table) is modelled (createSchedules) and compared on random configurations (h_date config).")
